@@ -175,8 +175,10 @@ class MethodCtx:
 
     def _scan_raise(self):
         fn = self.cls.defs[self.name]
+        # the l[0] inside `while l and l[0] < c` (drop-while idiom) is guarded by the truthiness test: not a raising read
+        guarded = {id(x) for w in ast.walk(fn) if isinstance(w, ast.While) for x in ast.walk(w.test)}
         return any(isinstance(n, ast.Raise) for n in ast.walk(fn)) or self._calls_raising(fn) \
-            or any(self._is_dict_read(n, None) for n in ast.walk(fn)) \
+            or any(self._is_dict_read(n, None) and id(n) not in guarded for n in ast.walk(fn)) \
             or any(isinstance(n, ast.AugAssign) and self._is_dict_read(self._as_load(n.target), None) for n in ast.walk(fn))
 
     def _is_dict_read(self, n, env):
